@@ -74,8 +74,11 @@ func verifJSONUnmarshal(data []byte, v interface{}) error {
 func VerifC13_DeserializeTotal() {
 	var msg string
 	if verifapi.Native() {
-		m, err := verifArbMap()
-		if err != nil {
+		// the empty message is an input of its own (nothing can be decoded from it); every other
+		// message is realised from the decoding outcome the executor chose
+		if raw := verifapi.String("msg", 4); raw == "" {
+			msg = ""
+		} else if m, err := verifArbMap(); err != nil {
 			msg = "{not json"
 		} else {
 			b, _ := json.Marshal(m)
